@@ -16,6 +16,7 @@ import (
 	"sort"
 	"sync"
 	"sync/atomic"
+	"unsafe"
 )
 
 type opKind int
@@ -78,14 +79,15 @@ type object struct {
 	pos   uint64 // waitgroup: chain of increments
 	neg   uint64 // waitgroup: commutative sum of decrements
 	// model state
-	closed  bool
-	owner   *thread // mutex
-	readers int     // rwmutex
-	counter int     // waitgroup
-	onceSt  int     // 0 none, 1 running, 2 done
-	onceBy  *thread
-	waiters []*thread // cond: threads in Wait, FIFO
-	mutex   *object   // cond: its locker
+	closed   bool
+	owner    *thread // mutex
+	readers  int     // rwmutex
+	counter  int     // waitgroup
+	onceSt   int     // 0 none, 1 running, 2 done
+	onceBy   *thread
+	waiters  []*thread // cond: threads in Wait, FIFO
+	mutex    *object   // cond: its locker
+	condRead bool      // cond: the locker is the read side of an RWMutex
 	// race oracle
 	vc vclock
 }
@@ -602,28 +604,49 @@ func OnceDo(o *sync.Once, f func()) {
 
 // CondWait models c.Wait() without ever blocking in the real sync.Cond: release
 // the locker and enqueue (always enabled), wait to be signalled, re-acquire.
+// condLocker recognises the Locker of a sync.Cond: a *sync.Mutex, a *sync.RWMutex (write side) or the
+// value returned by (*sync.RWMutex).RLocker() (read side; it is the RWMutex's own address under another
+// type).  Anything else is not modelled and the real Cond is used.
+func condLocker(c *sync.Cond) (p interface{}, kind string, read, ok bool) {
+	switch l := c.L.(type) {
+	case *sync.Mutex:
+		return l, "mutex", false, true
+	case *sync.RWMutex:
+		return l, "rwmutex", false, true
+	}
+	if c.L != nil && reflect.TypeOf(c.L).String() == "*sync.rlocker" {
+		return (*sync.RWMutex)(unsafe.Pointer(reflect.ValueOf(c.L).Pointer())), "rwmutex", true, true
+	}
+	return nil, "", false, false
+}
+
 func CondWait(c *sync.Cond) {
 	x, t := self()
-	mu, isMutex := c.L.(*sync.Mutex)
-	if x == nil || !isMutex {
+	lp, kind, read, ok := condLocker(c)
+	if x == nil || !ok {
 		c.Wait()
 		return
 	}
 	ob := x.ptrObj(c, "cond")
 	x.mu.Lock()
-	ob.mutex = x.ptrObjLocked(mu, "mutex")
+	ob.mutex = x.ptrObjLocked(lp, kind)
+	ob.condRead = read
 	x.mu.Unlock()
 	pos := caller(2)
 	x.park(t, &op{kind: opCondWait, obj: ob, pos: pos}, false)
-	mu.Unlock()
+	c.L.Unlock()
 	x.park(t, &op{kind: opCondWake, obj: ob, pos: pos}, false)
-	x.park(t, &op{kind: opLock, obj: ob.mutex, pos: pos}, false)
-	mu.Lock()
+	if read {
+		x.park(t, &op{kind: opRLock, obj: ob.mutex, pos: pos}, false)
+	} else {
+		x.park(t, &op{kind: opLock, obj: ob.mutex, pos: pos}, false)
+	}
+	c.L.Lock()
 }
 
 func CondSignal(c *sync.Cond) {
 	x, t := self()
-	if _, isMutex := c.L.(*sync.Mutex); x == nil || !isMutex {
+	if _, _, _, ok := condLocker(c); x == nil || !ok {
 		c.Signal()
 		return
 	}
@@ -632,7 +655,7 @@ func CondSignal(c *sync.Cond) {
 
 func CondBroadcast(c *sync.Cond) {
 	x, t := self()
-	if _, isMutex := c.L.(*sync.Mutex); x == nil || !isMutex {
+	if _, _, _, ok := condLocker(c); x == nil || !ok {
 		c.Broadcast()
 		return
 	}
@@ -892,7 +915,11 @@ func (x *exec) apply(tr trans) {
 		obj.waiters = append(obj.waiters, t)
 		t.signalled = false
 		if obj.mutex != nil {
-			obj.mutex.owner = nil
+			if obj.condRead {
+				obj.mutex.readers--
+			} else {
+				obj.mutex.owner = nil
+			}
 			obj.mutex.vc.join(t.vc)
 			obj.mutex.hash = mix(obj.mutex.hash, uint64(t.id), t.hash)
 		}
